@@ -120,6 +120,7 @@ class ManualRun:
                 self._out = io.StringIO()
                 sys.stdout = self._out
             try:
+                S.begin_step(-1)          # construction and the initial settle draw from their own stream
                 self.sim = Simulator(self.top)
                 self._body = body
                 async def testbench(ctx):
@@ -144,6 +145,7 @@ class ManualRun:
                 self.levels = {line: 0 for line in self.top.lines}
                 self.events = []
                 self._body = body
+                S.begin_step(-1)
                 self.sim.reset()
                 self.sim.run()
             finally:
